@@ -108,6 +108,7 @@ where
     trait SpliceFn {
         fn read(&mut self) -> BoxFuture<'_, IoResult<usize>>;
         fn write(&mut self, more: bool) -> BoxFuture<'_, IoResult<usize>>;
+        fn shutdown(&mut self) -> IoResult<()>;
     }
     type BoxSpliceFn = Box<dyn SpliceFn + Send>;
     struct NullFn;
@@ -117,6 +118,9 @@ where
         }
         fn write(&mut self, _more: bool) -> BoxFuture<'_, IoResult<usize>> {
             unreachable!()
+        }
+        fn shutdown(&mut self) -> IoResult<()> {
+            Ok(())
         }
     }
     #[cfg(target_os = "linux")]
@@ -136,6 +140,15 @@ where
             }
             fn write(&mut self, more: bool) -> BoxFuture<'_, IoResult<usize>> {
                 async_splice(&mut self.pipe.0, &self.dfd, self.bufsz, more).boxed()
+            }
+            // the fd is a duplicate, so dropping it does not end the stream: send FIN explicitly
+            fn shutdown(&mut self) -> IoResult<()> {
+                use nix::sys::socket::{shutdown, Shutdown};
+                use std::os::unix::prelude::AsRawFd;
+                match shutdown(self.dfd.as_raw_fd(), Shutdown::Write) {
+                    Ok(()) | Err(nix::errno::Errno::ENOTCONN) => Ok(()),
+                    Err(e) => Err(std::io::Error::from_raw_os_error(e as i32)),
+                }
             }
         }
 
@@ -204,6 +217,12 @@ where
         s.shutdown()
             .await
             .with_context(|| format!("shutdown frame {})", dst.name))?;
+    }
+
+    if have_rawfd {
+        pipe_fn
+            .shutdown()
+            .with_context(|| format!("shutdown {})", dst.name))?;
     }
 
     Ok(())
